@@ -1,5 +1,6 @@
 SPECIFICATION TSpec
 CONSTANTS
   Stride = 16
+  NLines = 1
 INVARIANTS LinesOK
 CHECK_DEADLOCK FALSE
